@@ -173,8 +173,12 @@ def main():
         del bytebuf.TRACE[:]
         kind = op["op"]
         pk = ctx.pkt(op["pkt"])
-        if kind == "enc":
-            ev = {"ev": "enc", "id": op["id"]}
+        if kind in ("enc", "encinto"):
+            # encinto: the output buffer is USED: it already holds the bytes `pre`, the first `rd` of them consumed
+            pre, rd = bytes(op.get("pre", [])), int(op.get("rd", 0))
+            ev = {"ev": kind, "id": op["id"]}
+            if kind == "encinto":
+                ev.update(pre=len(pre), rd=rd)
             try:
                 inst = ctx.build(pk["name"], pk["fields"], op["val"]["fs"])
             except MemberMismatch as e:
@@ -186,10 +190,13 @@ def main():
                 emit(ev)
                 continue
             try:
-                del bytebuf.TRACE[:]
                 buf = ByteBuf()
+                if pre:
+                    buf.write_bytes(pre)
+                    buf.read_bytes(rd)
+                del bytebuf.TRACE[:]
                 inst.encode(buf)
-                ev.update(ok=True, bytes=list(buf.to_bytes()),
+                ev.update(ok=True, bytes=list(buf.to_bytes()[buf.read_index:]),
                           prims=[[k, p, b] for (k, p, b) in bytebuf.TRACE if k != "calc"],
                           calcs=[[p, b] for (k, p, b) in bytebuf.TRACE if k == "calc"])
             except BaseException as e:
